@@ -57,6 +57,13 @@ def run (args : List String) : Option String :=
     let tight ← parseBool? tight; let shape ← parseShape? shape; let res ← parseRes? res
     let anchor ← parseAnchor? anchor; let tol ← parseRat? tol
     pure (fmtRes fmtGeoBox (fromBbox ⟨l, b, r, t⟩ tight shape res anchor tol))
+  | ["bboxutm", l, b, r, t, A, tight, shape, res, anchor, tol] => do
+    -- the utm shortcut with an affine stand-in `A` for the projection
+    let l ← parseRat? l; let b ← parseRat? b; let r ← parseRat? r; let t ← parseRat? t
+    let A ← parseAff? A
+    let tight ← parseBool? tight; let shape ← parseShape? shape; let res ← parseRes? res
+    let anchor ← parseAnchor? anchor; let tol ← parseRat? tol
+    pure (fmtRes fmtGeoBox (fromBboxUtm A.apply ⟨l, b, r, t⟩ tight shape res anchor tol))
   | ["poly", pts, res, align, shape, tight, anchor, tol] => do
     let pts ← parseList? parsePt? pts
     let res ← parseRes? res; let align ← parseOpt? parsePt? align
